@@ -113,6 +113,7 @@ pub struct Interp<'p> {
 	pub depth: usize,
 	pub div_zero_forks: bool,
 	pub div_assumptions: u64,
+	pub f32_mode: bool,
 }
 
 impl<'p> Interp<'p> {
@@ -154,6 +155,7 @@ impl<'p> Interp<'p> {
 			depth: 0,
 			div_zero_forks: false,
 			div_assumptions: 0,
+			f32_mode: false,
 		}
 	}
 
@@ -295,7 +297,7 @@ impl<'p> Interp<'p> {
 		match self.mode {
 			Mode::Concrete => {
 				let x = match self.concrete_inputs.get(name) {
-					Some(x) => *x,
+					Some(x) => self.rf(*x),
 					None => return Err(Ctl::Stop(format!("no concrete value for input '{}'", name))),
 				};
 				Ok(V::F(Fl::C(x)))
@@ -321,9 +323,18 @@ impl<'p> Interp<'p> {
 			self.inputs.push((name.to_string(), s));
 		}
 	}
+	/// value_type_f32 builds: round a concrete result to binary32 (double rounding through binary64 is
+	/// innocuous for + - * / sqrt)
+	pub fn rf(&self, x: f64) -> f64 {
+		if self.f32_mode {
+			x as f32 as f64
+		} else {
+			x
+		}
+	}
 	pub fn fl_const(&mut self, x: crate::term::Rat, approx: f64) -> Fl {
 		match self.mode {
-			Mode::Concrete => Fl::C(approx),
+			Mode::Concrete => Fl::C(self.rf(approx)),
 			_ => {
 				let r = self.tm.rat(x);
 				let z = self.tm.bool_(false);
